@@ -78,6 +78,48 @@ Proof.
 Qed.
 Print Assumptions multiexp_correct_nonvacuous.
 
+(** ** Pedersen commitments ([pedersen_commitment/key.rs]) as corollaries of [multiexp_correct] *)
+From CB Require Import Crypto.VecCommit.
+
+(** [VecCommitmentKey::hide_worker] (bases [gs.iter().take(values.len())] then [h]; scalars the values then
+    the randomness): for at most as many values as bases the commitment is
+    [sum_{i < |vs|} vs_i * gs_i + r * h] in every abelian group ([vec_commit_spec]). *)
+Theorem vec_commit_correct : forall (G : Type) (gzero : G) (gadd gsub : G -> G -> G) (gdbl gneg : G -> G),
+  abelian_group_laws gzero gadd gsub gdbl gneg ->
+  forall w field_bits gs h vs r, 1 <= w < 62 ->
+    Forall (scalar_ok field_bits) vs -> scalar_ok field_bits r ->
+    (length vs <= length gs)%nat ->
+    vec_commit G gzero gadd gsub gdbl w field_bits gs h vs r
+    = Some (gadd (msum G gzero gadd gneg limbs_val (combine vs gs)) (zmul G gzero gadd gneg (limbs_val r) h)).
+Proof. exact vec_commit_lemma. Qed.
+Print Assumptions vec_commit_correct.
+
+(** More values than bases: [None]. *)
+Theorem vec_commit_too_many_values : forall (G : Type) (gzero : G) (gadd gsub : G -> G -> G) (gdbl : G -> G) w fb gs h vs r,
+  (length gs < length vs)%nat -> vec_commit G gzero gadd gsub gdbl w fb gs h vs r = None.
+Proof. exact vec_commit_too_many. Qed.
+Print Assumptions vec_commit_too_many_values.
+
+(** [CommitmentKey::hide_worker]: [v * g + r * h]. *)
+Theorem commit_correct : forall (G : Type) (gzero : G) (gadd gsub : G -> G -> G) (gdbl gneg : G -> G),
+  abelian_group_laws gzero gadd gsub gdbl gneg ->
+  forall w field_bits g h v r, 1 <= w < 62 -> scalar_ok field_bits v -> scalar_ok field_bits r ->
+    commit G gzero gadd gsub gdbl w field_bits g h v r
+    = gadd (zmul G gzero gadd gneg (limbs_val v) g) (zmul G gzero gadd gneg (limbs_val r) h).
+Proof. exact commit_lemma. Qed.
+Print Assumptions commit_correct.
+
+(** Non-vacuity and necessity of the [take]: integers, bases 1 and 10, h = 100, no values, randomness 1:
+    the model gives 100 = r*h; the variant without [take] ([vec_commit_notake]) gives 1 = r*g_0. *)
+Example vec_commit_without_take_refuted :
+  let one := to_limbs 4 1 in
+  scalar_ok 255 one /\
+  vec_commit Z 0 Z.add Z.sub (fun a => a + a) 4 255 [1; 10] 100 [] one = Some 100 /\
+  vec_commit_spec Z 0 Z.add Z.opp [1; 10] 100 [] one = 100 /\
+  vec_commit_notake Z 0 Z.add Z.sub (fun a => a + a) 4 255 [1; 10] 100 [] one = Some 1.
+Proof. exact vec_commit_notake_refuted. Qed.
+Print Assumptions vec_commit_without_take_refuted.
+
 (** ** Secret sharing ([secret_sharing::share / reveal / reveal_in_group]) *)
 From Coq Require Import Field_theory.
 From Coq Require Import Qcanon.
